@@ -283,10 +283,13 @@ def macro_structure(ctx):
                 fl = flatten(key_a)
                 # the key is the declared scale (reference-unit path) resp. the unit NAME (other path) of its own argument
                 keyfield = [x[2] for x in fl if x[0] == "field" and x[1] == A]
-                ok = A in fl and B not in fl and keyfield in (["scale"], ["name"])
+                # WHICH key is used (declared scale / unit name) is decided on the expansions of the witness corpus, whose
+                # scales, names, symbols and identifiers all order differently; here only: one key function, applied alike
+                ok = A in fl and B not in fl
                 desc += "  [key field: %s]" % keyfield
+                ctx.extra.setdefault("sort_keys", {})[inst] = keyfield
         ctx.ob("macro-comparator", inst, ok,
-               "the sort is not an exact ordering by the specified key (scale literal / unit name) of each element — observed: %s" % desc,
+               "the sort is not an exact ordering `key(a).cmp(key(b))` with one key function applied to both elements — observed: %s" % desc,
                call.get("sp"))
 
 
